@@ -313,3 +313,13 @@ func (s *Sched) CloseShadow(c *chanState) {
 }
 
 func (c *chanState) Closed() bool { return c.closed }
+
+// RangeArg is wrapped around the operand of every range statement that could
+// be a range over a channel (the rewriter has no type information). It is the
+// identity, except that a channel operand is an infrastructure error.
+func RangeArg[T any](x T) T {
+	if reflect.TypeOf(x) != nil && reflect.TypeOf(x).Kind() == reflect.Chan {
+		Infra("range over a channel is not supported by the rewriter (" + reflect.TypeOf(x).String() + ")")
+	}
+	return x
+}
